@@ -477,8 +477,11 @@ def c06(X, form, body):
         if _kw.iskeyword(part) or part in ("True", "False", "None"):
             return None   # reserved words are outside the property's alphabet
     if k != "ok":
-        return {"kind": "subprocess-rejected", "observed": [k, O.exc_sig(t) if isinstance(t, BaseException) else None], "expected": f"{method}({[w for _, _, w in words]})",
-                "source": src}
+        v = {"kind": "subprocess-rejected", "observed": [k, O.exc_sig(t) if isinstance(t, BaseException) else None], "expected": f"{method}({[w for _, _, w in words]})",
+             "source": src}
+        if isinstance(t, SyntaxError) and t.msg == "cannot mix bytes and nonbytes literals" and re.search(r"""['"][bB][rR]?['"]|['"][rR][bB]['"]""", body):
+            v["feature"] = "bytes-prefix-letter-between-quotes"
+        return v
     try:
         call = t.body[0].value
     except (AttributeError, IndexError):
@@ -518,6 +521,8 @@ def split_macro_args(text):
                 return None
             lit = text[i:k + len(q)]
             pre = "".join(cur)[-3:].lower()
+            if "f" in pre.lstrip("0123456789 ,([{=+-*/%<>!&|^~:;.") and "\\\n" in lit:
+                return None     # a backslash continuation inside a replacement field is code, not literal text: outside the model like any top-level backslash
             if "f" in pre.lstrip("0123456789 ,([{=+-*/%<>!&|^~:;.") and any(ch in lit for ch in "()[]{}"):
                 st = []
                 for ch in lit:
